@@ -23,8 +23,8 @@ checks = {
    note="Bounds: 1 block, depth 6/8 (sequential); 18 thread configurations at P<=3 (thorough 4); 380 crash points. Promotion equalising the counters is checked by E-B/E-F (C04, C07).",
    technique="explicit-state BFS with replay on the real replica.Server vs reference model"),
  "C11": dict(engine=EA, design="§3 E-A, §4 C11",
-   text="(1) BFS over every chain of up to 5 (thorough 6) snapshots x user/auto x marked-removed x every checkpoint position, built with real operations; in every state the real GetDeleteCandidateChain must return only snapshots strictly between base and checkpoint that are not retained user snapshots and whose parent is not one. (2) BFS from three non-initial chains in which every deletion the cleaner itself would perform (each candidate the real filter returns, via prepare -> fold -> RemoveDiffDisk) is an event, interleaved with writes/snapshots/marks; after every path live data and every retained user snapshot are compared with the model (extent walk and revert-on-copy); head/latest/base deletion requests must be refused with the state unchanged.",
-   note="Trusted: reference model; sparse.FoldFile in-process stands for the sfold child. The REST precondition of user deletion (all RF replicas RW, checkpoint set) belongs to E-B/E-E.",
+   text="(1) BFS over every chain of up to 5 (thorough 6) snapshots x user/auto x marked-removed x every checkpoint position, built with real operations; in every state the real GetDeleteCandidateChain must return only snapshots strictly between base and checkpoint that are not retained user snapshots and whose parent is not one. (2) BFS from three non-initial chains in which every deletion the cleaner itself would perform (each candidate the real filter returns, via prepare -> fold -> RemoveDiffDisk) is an event, interleaved with writes/snapshots/marks; after every path live data and every retained user snapshot are compared with the model (extent walk and revert-on-copy); head/latest/base deletion requests must be refused with the state unchanged. (3) Engine E-B part C11rest on REAL replica nodes: the user's DELETE ...?action=deleteSnapshot through the real controller REST handler, for every snapshot name, the checkpoint and an unknown name, in every state reached by snapshots with failing subsets, monitor failures (also undelivered), REST ERR, removal and a real rebuild: it marks a snapshot removed only when all RF replicas are RW (ground truth), a checkpoint is recorded and the target is not the checkpoint; a refused request marks nothing.",
+   note="Trusted: reference model; sparse.FoldFile in-process stands for the sfold child.",
    technique="explicit-state BFS with replay on the real replica.Server + real cleaner filter vs reference model"),
  "C12": dict(engine=EA, design="§3 E-A, §4 C12",
    text="Explicit-state BFS over management operations with valid and invalid arguments (snapshot with new/duplicate names, mark-removed, system removals, removal of head/latest/base/unknown through both entry points, removal in the wrong mode, revert to member/unknown, grow/shrink/garbage sizes, set-checkpoint member/unknown, reopen, reload) from the empty replica and from a 3-snapshot chain; after every path the chain must be one acyclic head->base path with data+meta files whose names/attributes/parents equal the model's, refused operations must leave the canonical state key unchanged, and close->reopen must reproduce chain, attributes, data and size.",
